@@ -240,6 +240,17 @@ func c12SrcAt(d *Defs, ptr string) string {
 	return strings.Join(desc, "/")
 }
 
+// c12AddFails appends oracle failures to a verdict (`ok …` / `FAIL a ;; b`).
+func c12AddFails(verdict string, fails []string) string {
+	if len(fails) == 0 {
+		return verdict
+	}
+	if !strings.HasPrefix(verdict, "FAIL ") {
+		return "FAIL " + strings.Join(fails, " ;; ")
+	}
+	return verdict + " ;; " + strings.Join(fails, " ;; ")
+}
+
 func c12FindSchema(ss ast.Schemas, pkg string) *ast.Schema {
 	for _, s := range ss {
 		if s.Package == pkg {
@@ -272,6 +283,7 @@ func c12LabRows(out *bufio.Writer, lab *Lab, cases []*LabCase, docs map[string][
 			continue
 		}
 		fmt.Fprintf(out, "-\tcase %s format=%s degraded=%v notes=%v src=%s\tok\n", c.ID, c.Format, c.Degraded, c.Notes, c.Defs.sexp())
+		fmt.Fprintf(out, "-\tsource %s %s\tok\n", c.ID, jsonQuote(c.SchemaText))
 		skipDocs := func() {
 			if c.GoOK {
 				ri += len(docs[c.ID])
@@ -293,22 +305,41 @@ func c12LabRows(out *bufio.Writer, lab *Lab, cases []*LabCase, docs map[string][
 		fmt.Fprintf(out, "defschemas %s.js %s\tok\tok\n", c.ID, virSchemas(irJS))
 		jsText, oaText := c.EmittedJSONSchema(), c.EmittedOpenAPI()
 		vjs := c12VerdictJSONSchema(irJS, schema, jsText, true)
+		voa := c12VerdictOpenAPI(irJS, schema, oaText, true)
+		tagged := func(fails []string, doc string) []string {
+			for i := range fails {
+				fails[i] += doc + " format=" + c.Format + " case=" + c.ID
+			}
+			return fails
+		}
+		// the FRONT-END IR of the same input (before the language's own compiler passes)
+		pre, preErr := lab.labRun(c).loadSchemas()
+		if preErr != nil {
+			stats["chain-defaults:no-front-end-ir"]++
+		}
 		if em, err := parseJV(jsText); err == nil {
 			if ed, ok := c12Definitions(em, false); ok {
-				if sf := c12SourceCarried(c.Defs, ed); len(sf) > 0 {
-					for i := range sf {
-						sf[i] += " format=" + c.Format + " case=" + c.ID
-					}
-					if vjs == "ok" || !strings.HasPrefix(vjs, "FAIL ") {
-						vjs = "FAIL " + strings.Join(sf, " ;; ")
-					} else {
-						vjs += " ;; " + strings.Join(sf, " ;; ")
-					}
+				vjs = c12AddFails(vjs, tagged(c12SourceCarried(c.Defs, ed), ""))
+				if preErr == nil {
+					w := c12ChainDefaults(pre, c.ID, ed)
+					stats["chain-defaults:members"] += w.members
+					stats["chain-defaults:front-end-defaults"] += w.defaults
+					stats["chain-defaults:on-nullable-union-branch"] += w.onBranch
+					stats["chain-defaults:on-nullable-union"] += w.onUnion
+					stats["chain-defaults:failures"] += len(w.fails)
+					vjs = c12AddFails(vjs, tagged(w.fails, " doc=jsonschema"))
 				}
 			}
 		}
+		if em, err := parseJV(oaText); err == nil && preErr == nil {
+			if ed, ok := c12Definitions(em, true); ok {
+				w := c12ChainDefaults(pre, c.ID, ed)
+				stats["chain-defaults:failures"] += len(w.fails)
+				voa = c12AddFails(voa, tagged(w.fails, " doc=openapi"))
+			}
+		}
 		fmt.Fprintf(out, "jsemit %s.js %s js\tok %s\t%s\n", c.ID, c.ID, c12Compact(jsText), vjs)
-		fmt.Fprintf(out, "jsemit %s.js %s oa\tok %s\t%s\n", c.ID, c.ID, c12Compact(oaText), c12VerdictOpenAPI(irJS, schema, oaText, true))
+		fmt.Fprintf(out, "jsemit %s.js %s oa\tok %s\t%s\n", c.ID, c.ID, c12Compact(oaText), voa)
 		emitted, _ := parseJV(jsText)
 		refsOK := len(c12Unresolved(emitted, false)) == 0
 		defs, _ := c12Definitions(emitted, false)
@@ -865,13 +896,62 @@ var c12LabPinned = []struct {
 		[]string{`{"c":9007199254740993,"e":4611686018427387905}`, `{"c":9007199254740993,"e":1,"d":5}`}, nil},
 	{"lenzero", `(defs "R" ("R" (struct (field "e" (string - 0 false) true false -) (field "z" (string 0 - false) true false -))))`,
 		[]string{`{"e":"","z":""}`}, [][3]string{{"maxLength+1", "$.e", `{"e":"x","z":""}`}}},
+	// nullable members with a default (JSON Schema: the default sits inside the non-null branch of a union with null,
+	// spelled by hash; OpenAPI: `nullable: true`; CUE: the default mark sits on the disjunction)
+	{"nullabledefault", `(defs "R" ("R" (struct (field "title" (string - - false) false false (s "untitled")) (field "mode" (string - - false) false true (s "auto")) (field "limit" (int 64 true 0 -) false true (n "10")) (field "on" (bool) false true false) (field "size" (num 64 - -) false true (n "0.5")))))`,
+		[]string{`{}`, `{"title":"t","mode":"x","limit":3,"on":true,"size":1.25}`, `{"mode":null,"limit":null}`}, nil},
 	{"plain", `(defs "R" ("R" (struct (field "s" (string 1 5 false) true false -) (field "k" (ref "E") false false -) (field "l" (array (int 64 true 0 9)) true false -))) ("E" (enumS "a" "b")))`,
 		[]string{`{"s":"ab","k":"b","l":[1,9]}`, `{"s":"abcde","l":[]}`}, nil},
+}
+
+// pinned lab cases given as schema TEXT (spellings the renderers choose by hash are fixed here): nullable
+// unions `T | null` / `null | T` whose default sits on the non-null BRANCH (JSON Schema anyOf / oneOf) or on
+// the disjunction (CUE `*"x" | string | null`); the chain-default oracle compares the front-end IR's
+// effective default with the emitted property
+var c12LabPinnedText = []struct {
+	id, format, text, defs string
+	docs                   []string
+}{
+	{"nullbranchjs", "jsonschema", `{
+  "$schema": "http://json-schema.org/draft-07/schema#",
+  "$ref": "#/definitions/R",
+  "definitions": {
+    "R": {"type": "object", "additionalProperties": false,
+      "properties": {
+        "title": {"type": "string", "default": "untitled"},
+        "mode": {"anyOf": [{"type": "string", "default": "auto"}, {"type": "null"}]},
+        "limit": {"anyOf": [{"type": "null"}, {"type": "integer", "minimum": 0, "default": 10}]},
+        "on": {"oneOf": [{"type": "boolean", "default": false}, {"type": "null"}]},
+        "tags": {"oneOf": [{"type": "null"}, {"type": "array", "items": {"type": "string"}, "default": ["a", "b"]}]}
+      }}
+  }
+}
+`, `(defs "R" ("R" (struct (field "title" (string - - false) false false (s "untitled")) (field "mode" (string - - false) false true (s "auto")) (field "limit" (int 64 true 0 -) false true (n "10")) (field "on" (bool) false true false) (field "tags" (array (string - - false)) false true (a (s "a") (s "b"))))))`,
+		[]string{`{}`, `{"title":"t","mode":"x","limit":3,"on":true,"tags":["z"]}`, `{"mode":null,"limit":null}`}},
+	{"nullbranchcue", "cue", `package %PKG%
+
+#R: {
+	title?: string | *"untitled"
+	mode?:  *"auto" | string | null
+	limit?: null | int64 & >=0 | *10
+	on?:    bool | *false | null
+}
+`, `(defs "R" ("R" (struct (field "title" (string - - false) false false (s "untitled")) (field "mode" (string - - false) false true (s "auto")) (field "limit" (int 64 true 0 -) false true (n "10")) (field "on" (bool) false true false))))`,
+		[]string{`{}`, `{"title":"t","mode":"x","limit":3,"on":true}`, `{"mode":null,"limit":null}`}},
+}
+
+// c12Spellings: the c12 streams draw the spelling of a nullable member's union (null branch first / last,
+// anyOf / oneOf, position of the CUE default mark) by hash per member; `nullbranch=plain` switches back
+func c12Spellings(args map[string]string) {
+	if args["nullbranch"] != "plain" {
+		jsNullBranchStyle, cueNullBranchStyle = "mixed", "mixed"
+	}
 }
 
 func init() {
 	register("c12-lab", func(args map[string]string, out *bufio.Writer) error {
 		args["python"] = "0"
+		c12Spellings(args)
 		b, err := buildLabBatch(args, "c12-"+args["seed"]+"-"+args["tier"], true)
 		if err != nil {
 			return err
@@ -910,6 +990,7 @@ func init() {
 	// boundary terms × 3 formats: valid documents at the bounds (through real generated Go code) and
 	// single-fault documents one step beyond them
 	register("c12-bounds", func(args map[string]string, out *bufio.Writer) error {
+		c12Spellings(args)
 		opts := defaultLabOpts()
 		opts.NoPython = true
 		lab, err := NewLab(labWorkDir("c12bounds-"+args["seed"]), opts)
@@ -960,6 +1041,7 @@ func init() {
 	// inferred entry points: the root object is named like the package in several casings and the input
 	// carries no explicit entry point; the emitted top-level `$ref` has to name a definition
 	register("c12-entry", func(args map[string]string, out *bufio.Writer) error {
+		c12Spellings(args)
 		opts := defaultLabOpts()
 		opts.NoPython = true
 		lab, err := NewLab(labWorkDir("c12entry-"+args["seed"]), opts)
@@ -1017,6 +1099,7 @@ func init() {
 	})
 
 	register("c12-labpinned", func(args map[string]string, out *bufio.Writer) error {
+		c12Spellings(args)
 		opts := defaultLabOpts()
 		opts.NoPython = true
 		lab, err := NewLab(labWorkDir("c12pin"), opts)
@@ -1046,6 +1129,21 @@ func init() {
 				}
 				fmt.Fprintf(out, "-\tpinned %s %s %s\tok\n", p.id, c.ID, f)
 			}
+		}
+		for _, p := range c12LabPinnedText {
+			if only, ok := args["id"]; ok && only != p.id {
+				continue
+			}
+			d, err := parseDefsSexp(p.defs)
+			if err != nil {
+				return err
+			}
+			c := lab.AddCaseText(p.format, p.text, d)
+			cases = append(cases, c)
+			for _, t := range p.docs {
+				docs[c.ID] = append(docs[c.ID], mustJV(t))
+			}
+			fmt.Fprintf(out, "-\tpinned %s %s %s\tok\n", p.id, c.ID, p.format)
 		}
 		if err := lab.Build(); err != nil {
 			return err
